@@ -67,12 +67,23 @@ template <class T> static bool applyCopyable(const mj::Value& a, Array_<T>& x, A
     else if (op == "setElt") x[i] = T(v);
     else if (op == "viewFill") { x(i, n).fill(T(v)); }
     else if (op == "viewAssign") { x(i, n) = o(j, n); }
+    else if (op == "handle") {
+        // a non-owner handle onto x[i, i+n): optional writes through it, then dropped in one of several ways
+        T* first = x.begin() + i;
+        Array_<T> h(first, first + n, DontCopy());
+        if (h.isOwner() && n > 0) note = "a DontCopy handle claims ownership";
+        if (j) for (unsigned e = 0; e < h.size(); ++e) h[e] = T(v);
+        if (k == 1) h.deallocate();
+        else if (k == 2) h.shareData(o.begin(), o.end());
+        else if (k == 3) { Array_<T> g(std::move(h)); }
+        else if (k == 4) { Array_<T> g; g.swap(h); }
+    }
     else return false;
     return true;
 }
 template <class T> static bool applyMoveOnly(const mj::Value& a, Array_<T>& x, Array_<T>& o, string& note) {
     const string op = a["op"].str();
-    const int i = a["i"].num(), j = a["j"].num(), n = a["n"].num(), v = a["v"].num();
+    const int i = a["i"].num(), j = a["j"].num(), k = a["k"].num(), n = a["n"].num(), v = a["v"].num();
     if (op == "push_back") x.push_back(T(v));
     else if (op == "emplace_back") x.emplace_back(v);
     else if (op == "pop_back") x.pop_back();
@@ -84,6 +95,17 @@ template <class T> static bool applyMoveOnly(const mj::Value& a, Array_<T>& x, A
     else if (op == "clear") x.clear();
     else if (op == "swap") x.swap(o);
     else if (op == "moveAssign") { x = std::move(o); o.clear(); }   // the moved-from array is valid but unspecified: normalise
+    else if (op == "handle") {
+        // a non-owner handle onto x[i, i+n): optional writes through it, then dropped in one of several ways
+        T* first = x.begin() + i;
+        Array_<T> h(first, first + n, DontCopy());
+        if (h.isOwner() && n > 0) note = "a DontCopy handle claims ownership";
+        if (j) for (unsigned e = 0; e < h.size(); ++e) h[e] = T(v);
+        if (k == 1) h.deallocate();
+        else if (k == 2) h.shareData(o.begin(), o.end());
+        else if (k == 3) { Array_<T> g(std::move(h)); }
+        else if (k == 4) { Array_<T> g; g.swap(h); }
+    }
     else if (op == "setElt") x[i] = T(v);
     else return false;
     return true;
